@@ -111,6 +111,12 @@ Ltac proj :=
   cbn [puts taken calls flat_map app];
   rewrite ?app_nil_r.
 
+Ltac phase_tac st :=
+  unfold phase_ok in *; cbn [phase_ trace cycle reader running registered]; proj;
+  rewrite ?count_stop_app; cbn [count_stop]; rewrite ?Nat.add_0_r;
+  try match goal with E : reader st = _ |- _ => rewrite E in * end;
+  destruct (phase_ st); cbn [alive] in *; intuition (try lia; try congruence; try discriminate).
+
 Lemma alive_sk fails st : Inv fails st -> alive (reader st) = true -> count_stop (taken (trace st)) = cycle st.
 Proof.
   intros [_ _ _ Hp] Ha. unfold phase_ok in Hp. destruct (phase_ st).
@@ -142,7 +148,7 @@ Proof.
     unfold phase_ok in Hp. destruct (phase_ st) eqn:Eph.
     + destruct (todo st); [exact I|]. destruct Hp as (Hsp & Hsk & Hal & Hr & Hg).
       constructor; cbn [queue trace log]; proj; auto.
-      * unfold held in *. cbn [reader cycle]. destruct (reader st); try discriminate; exact Hc.
+      * unfold held in *. cbn [reader cycle]. destruct (reader st); try discriminate; rewrite ?app_nil_r in *; exact Hc.
       * unfold phase_ok. cbn [phase_ trace cycle reader running registered]. proj. cbn. auto.
     + destruct Hp as (Hsp & Hsk & Hal & Hr & Hg).
       constructor; cbn [queue trace log]; proj; auto.
@@ -155,7 +161,7 @@ Proof.
     + destruct (reader st) eqn:Er; try exact I.
       destruct Hp as (Hsp & Hr & Hg & [[_ Hal]|[Hsk _]]); [cbn in Hal; discriminate|].
       constructor; cbn [queue trace log]; proj; auto.
-      * unfold held in *. cbn [reader cycle]. rewrite Er in Hc. exact Hc.
+      * unfold held in *. cbn [reader cycle]. rewrite Er in Hc. rewrite ?app_nil_r in *. exact Hc.
       * unfold phase_ok. cbn [phase_ trace cycle reader running registered]. proj. cbn. auto.
   - (* producer *)
     destruct (nth_error (prods st) i) as [[|m rest]|]; try exact I.
@@ -173,23 +179,19 @@ Proof.
         -- rewrite Hf. now rewrite <- app_assoc.
         -- rewrite attrib_app. cbn. rewrite Hc. unfold held. rewrite Er. cbn [reader cycle].
            rewrite app_nil_r. now rewrite Hsk.
-        -- unfold phase_ok in *. cbn [phase_ trace cycle reader running registered]. proj.
-           rewrite count_stop_app. cbn. rewrite Nat.add_0_r. rewrite Er in Hp. exact Hp.
+        -- phase_tac st.
       * destruct (stop_head_joining fails st q I) as (Hph & Hsp & Hq); auto; [rewrite Er; auto|].
         assert (Hsk : count_stop (taken (trace st)) = cycle st) by (apply (alive_sk fails); auto; rewrite Er; auto).
         constructor; cbn [queue trace log]; proj; auto.
         -- rewrite Hf. now rewrite <- app_assoc.
-        -- rewrite attrib_app. cbn. rewrite app_nil_r. rewrite Hc. unfold held. rewrite Er. now cbn [reader].
-        -- unfold phase_ok in *. cbn [phase_ trace cycle reader running registered]. proj.
-           rewrite Hph in *. rewrite count_stop_app. cbn.
-           destruct Hp as (? & ? & ? & _). repeat split; auto. right. split; auto. lia.
+        -- rewrite attrib_app. cbn. rewrite app_nil_r. rewrite Hc. unfold held. rewrite Er. now rewrite app_nil_r.
+        -- clear Hph. phase_tac st.
     + (* call the destination *)
       constructor; cbn [queue trace log]; proj; auto.
-      * rewrite Hc. unfold held. rewrite Er. cbn [reader]. now rewrite app_nil_r.
+      * rewrite Hc. unfold held. now rewrite Er.
       * rewrite filter_app, map_app. cbn [filter]. unfold okf at 2. cbn [fst].
         destruct (fails m); cbn [negb map]; rewrite Hl; [now rewrite app_nil_r | reflexivity].
-      * unfold phase_ok in *. cbn [phase_ trace cycle reader running registered]. proj.
-        rewrite Er in Hp. exact Hp.
+      * phase_tac st.
 Qed.
 
 Lemma run_from_inv fails st sched : Inv fails st -> Inv fails (run_from fails st sched).
@@ -210,37 +212,54 @@ Definition PInv (producers : list (list nat)) (st : state) : Prop :=
   (forall i, put_by i (trace st) ++ nth i (prods st) [] = nth i producers []) /\
   Permutation (msgs (puts (trace st)) ++ concat (prods st)) (concat producers).
 
+Lemma pinv_same producers st st' e :
+  PInv producers st -> prods st' = prods st -> trace st' = trace st ++ [e] ->
+  (forall i, put_by i [e] = []) -> msgs (puts [e]) = [] -> PInv producers st'.
+Proof.
+  intros (Hlen & Hby & Hperm) Hp Ht Hb Hm. unfold PInv. rewrite Hp, Ht. repeat split; auto.
+  - intros i. rewrite put_by_app, Hb, app_nil_r. apply Hby.
+  - rewrite puts_app, msgs_app, Hm, app_nil_r. exact Hperm.
+Qed.
+
+Ltac same_prods := eapply pinv_same; [eassumption | reflexivity | reflexivity | intros; reflexivity | reflexivity].
+
 Lemma step_pinv fails producers st t : PInv producers st -> PInv producers (step fails st t).
 Proof.
-  intros (Hlen & Hby & Hperm). unfold step, step_gen.
-  assert (Hsame : forall e q r g ph cy td lg rn,
-            put_by_none e -> puts [e] = [] \/ puts [e] = [Stop] ->
-            PInv producers (mkState q rn g r ph cy td (prods st) lg (trace st ++ [e]))).
-  2: {
-    destruct t as [|i|c].
-    - destruct (phase_ st).
-      + destruct (todo st); [repeat split; auto|]. apply Hsame; cbn; auto.
-      + apply Hsame; cbn; auto.
-      + apply Hsame; cbn; auto.
-      + destruct (reader st); try (repeat split; auto; fail). apply Hsame; cbn; auto.
-    - destruct (nth_error (prods st) i) as [[|m rest]|] eqn:En; try (repeat split; auto; fail).
-      assert (Hi : i < length (prods st)) by (apply nth_error_Some; congruence).
-      repeat split; cbn [prods trace].
-      + now rewrite set_nth_length.
-      + intros j. rewrite put_by_app. cbn [put_by flat_map app]. rewrite app_nil_r.
-        destruct (Nat.eqb j i) eqn:Eji.
-        * apply Nat.eqb_eq in Eji. subst j. rewrite set_nth_eq by assumption.
-          rewrite <- Hby. rewrite (nth_error_nth _ _ [] En). now rewrite <- app_assoc.
-        * apply Nat.eqb_neq in Eji. rewrite set_nth_neq by assumption. rewrite app_nil_r. apply Hby.
-      + rewrite puts_app, msgs_app. cbn [puts msgs flat_map app].
-        destruct (nth_error_split _ _ En) as (A & B & EAB & HlA). rewrite EAB in *. subst i.
-        rewrite set_nth_split. rewrite concat_app in *. cbn [concat] in *.
-        eapply Permutation_trans; [|exact Hperm].
-        rewrite <- !app_assoc. apply Permutation_app_head. cbn [app].
-        rewrite <- app_assoc. cbn [app]. apply Permutation_middle.
-    - destruct (Nat.eqb c (cycle st)); [|repeat split; auto].
-      destruct (reader st); try (repeat split; auto; fail).
-      + cbn [andb]. destruct (queue st) as [|[m|] q]; [repeat split; auto| |]; apply Hsame; cbn; auto.
-      + apply Hsame; cbn; auto.
-  }
-Abort.
+  intros P. pose proof P as (Hlen & Hby & Hperm). unfold step, step_gen.
+  destruct t as [|i|c].
+  - destruct (phase_ st).
+    + destruct (todo st); [exact P|]. same_prods.
+    + same_prods.
+    + same_prods.
+    + destruct (reader st); try exact P. same_prods.
+  - destruct (nth_error (prods st) i) as [[|m rest]|] eqn:En; try exact P.
+    assert (Hi : i < length (prods st)) by (apply nth_error_Some; congruence).
+    repeat split; cbn [prods trace].
+    + now rewrite set_nth_length.
+    + intros j. rewrite put_by_app. cbn [put_by flat_map app]. rewrite app_nil_r.
+      destruct (Nat.eqb j i) eqn:Eji.
+      * apply Nat.eqb_eq in Eji. subst j. rewrite set_nth_eq by assumption.
+        rewrite <- Hby. rewrite (nth_error_nth _ _ [] En). now rewrite <- app_assoc.
+      * apply Nat.eqb_neq in Eji. rewrite set_nth_neq by assumption. rewrite app_nil_r. apply Hby.
+    + rewrite puts_app, msgs_app. cbn [puts msgs flat_map app].
+      destruct (nth_error_split _ _ En) as (A & B & EAB & HlA). rewrite EAB in *. subst i.
+      rewrite set_nth_split. rewrite concat_app in *. cbn [concat] in *.
+      eapply Permutation_trans; [|exact Hperm].
+      rewrite <- !app_assoc. apply Permutation_app_head. cbn [app].
+      apply Permutation_middle.
+  - destruct (Nat.eqb c (cycle st)); [|exact P].
+    destruct (reader st); try exact P.
+    + cbn [andb]. destruct (queue st) as [|[m|] q]; [exact P| |]; same_prods.
+    + same_prods.
+Qed.
+
+Lemma pinv_init producers cycles : PInv producers (init producers cycles).
+Proof. repeat split; cbn; auto. Qed.
+
+Lemma run_from_pinv fails producers st sched : PInv producers st -> PInv producers (run_from fails st sched).
+Proof.
+  revert st. induction sched as [|t r IH]; intros st I; cbn; auto. apply IH. now apply step_pinv.
+Qed.
+
+Lemma run_pinv fails producers cycles sched : PInv producers (run fails producers cycles sched).
+Proof. apply run_from_pinv, pinv_init. Qed.
